@@ -499,20 +499,27 @@ func (ex *Exec) convert(fr *frame, st *State, x *ssa.Convert) []*State {
 			t := v.(*term.Term)
 			w := basicWidth(d)
 			if t.Sort.K == term.KFP {
-				env[x] = cvtFloatToInt(t, w, isSigned(dst))
+				if r := ex.fpQuotientCut(st, t, w, isSigned(dst), x); r != nil {
+					env[x] = r
+				} else {
+					env[x] = cvtFloatToInt(t, w, isSigned(dst))
+				}
 			} else {
 				r := term.Resize(t, w, isSigned(src))
 				// widening of a truncated value whose range shows the truncation lost nothing: the original value
-				if (r.Op == term.OSext || r.Op == term.OZext) && r.Args[0].Op == term.OExtract && r.Args[0].B == 0 {
-					inner := r.Args[0].Args[0]
+				if (r.Op == term.OSext || r.Op == term.OZext) && r.W() <= 64 {
 					iw := r.Args[0].W()
-					if inner.W() == r.W() && inner.W() <= 64 {
+					if inner := liftTrunc(r.Args[0], r.W(), 0); inner != nil {
 						lim := uint64(1) << uint(iw)
 						if r.Op == term.OSext {
 							lim >>= 1
 						}
 						if rg := st.facts().rangeOf(inner); rg.hi < lim {
 							r = inner
+						} else if r.Op == term.OSext {
+							if sr, ok := st.facts().srangeOf(inner); ok && fitsSigned(sr.lo, iw) && fitsSigned(sr.hi, iw) {
+								r = inner
+							}
 						}
 					}
 				}
@@ -894,4 +901,155 @@ func (ex *Exec) typeAssert(fr *frame, st *State, x *ssa.TypeAssert) []*State {
 	}
 	st.F.Env[x] = res
 	return one(st)
+}
+
+// liftTrunc rebuilds, at width w, a narrower term that was computed from truncations of w-bit values with ring
+// operations (which commute with truncation): extract[iw-1:0](liftTrunc(t)) == t always. nil when t has another shape.
+func liftTrunc(t *term.Term, w int, depth int) *term.Term {
+	if depth > 6 {
+		return nil
+	}
+	switch {
+	case t.IsConst():
+		return term.Const(w, uint64(t.SVal()))
+	case t.Op == term.OExtract && t.B == 0 && t.Args[0].W() == w:
+		return t.Args[0]
+	case t.Op == term.OAdd || t.Op == term.OSub || t.Op == term.OMul:
+		a, b := liftTrunc(t.Args[0], w, depth+1), liftTrunc(t.Args[1], w, depth+1)
+		if a == nil || b == nil {
+			return nil
+		}
+		switch t.Op {
+		case term.OAdd:
+			return term.Add(a, b)
+		case term.OSub:
+			return term.Sub(a, b)
+		}
+		return term.Mul(a, b)
+	case t.Op == term.OIte:
+		a, b := liftTrunc(t.Args[1], w, depth+1), liftTrunc(t.Args[2], w, depth+1)
+		if a == nil || b == nil {
+			return nil
+		}
+		return term.Ite(t.Args[0], a, b)
+	}
+	return nil
+}
+
+// fpQuotientCut handles int64(float64(v) / c) for an integer-valued constant c — the idiom of integer division
+// through floats (Duration.Hours()/24) — by a cut instead of handing the solver calendar arithmetic and IEEE-754
+// division in one query. With [lo, hi] the signed range the path facts give for v (|v| <= 2^53), it emits
+//
+//	(1) a lemma over a fresh u:  lo <= u <= hi  =>  int64(float(u) [+ 0.0] / c) == u sdiv c      (pure FP query)
+//	(2) the range itself:        path guard     =>  lo <= v <= hi                                 (pure BV query)
+//
+// both as stub-precondition VCs (undecided or refuted = INCONCLUSIVE, never a pass), and continues with v sdiv c.
+func (ex *Exec) fpQuotientCut(st *State, f *term.Term, w int, signed bool, site ssa.Instruction) *term.Term {
+	if w != 64 || !signed || f.Op != term.OFpDiv || f.Sort.W != 64 || !f.Args[1].IsConst() {
+		return nil
+	}
+	cf := term.FPValue(f.Args[1])
+	if cf < 1 || cf > 1<<31 || cf != float64(int64(cf)) {
+		return nil
+	}
+	c := int64(cf)
+	X := f.Args[0]
+	plusZero := false
+	if X.Op == term.OFpAdd && X.Args[1].IsConst() && X.Args[1].Val == 0 { // + (+0.0)
+		X, plusZero = X.Args[0], true
+	}
+	if X.Op != term.OFpFromSBV || X.Args[0].W() != 64 {
+		return nil
+	}
+	v := X.Args[0]
+	sr, ok := st.facts().srangeOf(v)
+	if !ok || sr.lo < -(1<<53) || sr.hi > 1<<53 {
+		return nil
+	}
+	key := fmt.Sprintf("%d/%v/%d/%d", c, plusZero, sr.lo, sr.hi)
+	if ex.cutLemmas == nil {
+		ex.cutLemmas = map[string]bool{}
+	}
+	if !ex.cutLemmas[key] {
+		ex.cutLemmas[key] = true
+		u := ex.Fresh("cut", term.BV(64))
+		fu := term.FpFromBV(u, 64, true)
+		if plusZero {
+			fu = term.FpArith(term.OFpAdd, fu, term.FPConst64(0))
+		}
+		lhs := cvtFloatToInt(term.FpArith(term.OFpDiv, fu, f.Args[1]), 64, true)
+		ex.VCs = append(ex.VCs, &VC{Label: "stub-precondition:float-quotient-of-integers-is-exact(lemma)", Kind: "precond", Site: ex.posOf(site),
+			Guard: term.And(term.Sle(c64(sr.lo), u), term.Sle(u, c64(sr.hi))), Cond: term.Eq(lhs, term.SDiv(u, c64(c)))})
+	}
+	rg, rv := ex.abstractByFacts(st, v)
+	ex.VCs = append(ex.VCs, &VC{Label: "stub-precondition:operand-range-of-float-quotient", Kind: "precond", Site: ex.posOf(site),
+		Guard: rg, Cond: term.And(term.Sle(c64(sr.lo), rv), term.Sle(rv, c64(sr.hi)))})
+	// (x*k) sdiv c with c | k and no overflow is x*(k/c)
+	if v.Op == term.OMul {
+		for i := 0; i < 2; i++ {
+			k, x := v.Args[i], v.Args[1-i]
+			if k.IsConst() && k.SVal() > 0 && k.SVal()%c == 0 {
+				if xr, okx := st.facts().srangeOf(x); okx {
+					if _, o1 := mulOv(xr.lo, k.SVal()); o1 {
+						if _, o2 := mulOv(xr.hi, k.SVal()); o2 {
+							return term.Mul(x, c64(k.SVal()/c))
+						}
+					}
+				}
+			}
+		}
+	}
+	return term.SDiv(v, c64(c))
+}
+
+// abstractByFacts generalises t for a range query: every subterm the path guard bounds directly (a conjunct
+// `k <= s`, `s <= k`) is replaced by a fresh variable carrying just those bounds, arithmetic above it is kept.
+// If the generalised claim holds for every value of the fresh variables it holds for t under the guard (the
+// bounds are conjuncts of the guard); the solver then sees `lo <= z <= hi => lo' <= 24*z <= hi'` instead of the
+// whole calendar. Subterms of any other shape are kept as they are, and then the full guard is kept as well.
+func (ex *Exec) abstractByFacts(st *State, t *term.Term) (guard, out *term.Term) {
+	f := st.facts()
+	guard = term.True()
+	needG := false
+	memo := map[int]*term.Term{}
+	var walk func(t *term.Term) *term.Term
+	walk = func(t *term.Term) *term.Term {
+		if t.IsConst() || t.Sort.K != term.KBV || t.W() > 64 {
+			return t
+		}
+		if r, ok := memo[t.ID]; ok {
+			return r
+		}
+		var r *term.Term
+		sb, hasS := f.getS(t.ID)
+		ub, hasU := f.getR(t.ID)
+		switch {
+		case hasS || hasU:
+			r = ex.Fresh("gen", t.Sort)
+			if hasS {
+				guard = term.And(guard, term.Sle(term.Const(t.W(), uint64(sb.lo)), r), term.Sle(r, term.Const(t.W(), uint64(sb.hi))))
+			}
+			if hasU {
+				guard = term.And(guard, term.Ule(term.Const(t.W(), ub.lo), r), term.Ule(r, term.Const(t.W(), ub.hi)))
+			}
+		case t.Op == term.OAdd:
+			r = term.Add(walk(t.Args[0]), walk(t.Args[1]))
+		case t.Op == term.OSub:
+			r = term.Sub(walk(t.Args[0]), walk(t.Args[1]))
+		case t.Op == term.OMul:
+			r = term.Mul(walk(t.Args[0]), walk(t.Args[1]))
+		case t.Op == term.OSDiv && t.Args[1].IsConst():
+			r = term.SDiv(walk(t.Args[0]), t.Args[1])
+		default:
+			needG = true
+			r = t
+		}
+		memo[t.ID] = r
+		return r
+	}
+	out = walk(t)
+	if needG {
+		guard = term.And(guard, st.G)
+	}
+	return guard, out
 }
